@@ -100,24 +100,37 @@ def _prune(keep):
     except FileNotFoundError:
         return
     ents.sort(key=lambda p: os.path.getmtime(p))
-    while len(ents) > 14:
+    while len(ents) > 24:
         victim = ents.pop(0)
         if victim == keep:
             continue
         shutil.rmtree(victim, ignore_errors=True)
 
 
-def get_build(variant='mon', root=None, quiet=True):
-    """Return the directory to put on PYTHONPATH.  Builds when missing."""
-    root = root or repo_root()
-    os.makedirs(CACHE, exist_ok=True)
-    h = tree_hash(root, variant)
-    out = os.path.join(CACHE, '%s-%s' % (h, variant))
+def c_hash(root, variant):
+    """Hash of everything the compiled modules depend on (no .py files)."""
+    h = hashlib.sha256()
+    h.update(repr(VARIANTS[variant]).encode())
+    h.update(sys.version.encode())
+    for f in _inputs(root):
+        if f.endswith('.py'):
+            continue
+        h.update(os.path.relpath(f, root).encode())
+        with open(f, 'rb') as fh:
+            h.update(fh.read())
+    return h.hexdigest()[:16]
+
+
+def _build_c(variant, root, quiet):
+    """Stage 1: the 22 compiled modules, keyed by the C sources only (a
+    change to a .py file does not recompile anything)."""
+    ch = c_hash(root, variant)
+    out = os.path.join(CACHE, '%s-%s-c' % (ch, variant))
     okflag = os.path.join(out, '.ok')
     if os.path.exists(okflag):
         os.utime(out, None)
         return out
-    lock = open(os.path.join(CACHE, '.lock-%s-%s' % (h, variant)), 'w')
+    lock = open(os.path.join(CACHE, '.lock-%s-%s-c' % (ch, variant)), 'w')
     fcntl.flock(lock, fcntl.LOCK_EX)
     try:
         if os.path.exists(okflag):
@@ -128,9 +141,6 @@ def get_build(variant='mon', root=None, quiet=True):
         pkg = os.path.join(out, 'BTrees')
         os.makedirs(pkg)
         src = os.path.join(root, 'src', 'BTrees')
-        for fn in os.listdir(src):
-            if fn.endswith('.py'):
-                shutil.copy(os.path.join(src, fn), os.path.join(pkg, fn))
         inc, suffix = py_include()
         v = VARIANTS[variant]
         jobs = []
@@ -151,9 +161,58 @@ def get_build(variant='mon', root=None, quiet=True):
             raise RuntimeError('build failed (%s): %s' % (
                 variant, '\n'.join('%s: %s' % b for b in bad)))
         with open(okflag, 'w') as fh:
-            fh.write('%s %s %.1fs\n' % (variant, h, time.time() - t0))
+            fh.write('%s %s %.1fs\n' % (variant, ch, time.time() - t0))
         if not quiet:
             print('built %s in %.1fs -> %s' % (variant, time.time() - t0, out))
+        return out
+    finally:
+        fcntl.flock(lock, fcntl.LOCK_UN)
+        lock.close()
+
+
+def get_build(variant='mon', root=None, quiet=True):
+    """Return the directory to put on PYTHONPATH.  Builds when missing.
+
+    Two stages: the compiled modules (keyed by the C sources) and, on top,
+    a complete importable package keyed by everything: the .py files copied
+    next to links to the compiled modules."""
+    root = root or repo_root()
+    os.makedirs(CACHE, exist_ok=True)
+    h = tree_hash(root, variant)
+    out = os.path.join(CACHE, '%s-%s' % (h, variant))
+    okflag = os.path.join(out, '.ok')
+    if os.path.exists(okflag):
+        os.utime(out, None)
+        try:
+            os.utime(os.path.realpath(os.path.join(out, '.cstage')), None)
+        except OSError:
+            pass
+        return out
+    cdir = _build_c(variant, root, quiet)
+    lock = open(os.path.join(CACHE, '.lock-%s-%s' % (h, variant)), 'w')
+    fcntl.flock(lock, fcntl.LOCK_EX)
+    try:
+        if os.path.exists(okflag):
+            return out
+        if os.path.exists(out):
+            shutil.rmtree(out)
+        pkg = os.path.join(out, 'BTrees')
+        os.makedirs(pkg)
+        src = os.path.join(root, 'src', 'BTrees')
+        for fn in os.listdir(src):
+            if fn.endswith('.py'):
+                shutil.copy(os.path.join(src, fn), os.path.join(pkg, fn))
+        cpkg = os.path.join(cdir, 'BTrees')
+        for fn in os.listdir(cpkg):
+            # hard links: the coverage build writes its .gcda next to the
+            # module, and a pruned first stage must not break this one
+            try:
+                os.link(os.path.join(cpkg, fn), os.path.join(pkg, fn))
+            except OSError:
+                shutil.copy(os.path.join(cpkg, fn), os.path.join(pkg, fn))
+        os.symlink(cdir, os.path.join(out, '.cstage'))
+        with open(okflag, 'w') as fh:
+            fh.write('%s %s\n' % (variant, h))
         _prune(out)
         return out
     finally:
